@@ -3,7 +3,7 @@
    strictly increasing and in range, rows and columns agree, and the entry pool is exactly
    accounted for (blocks * block size = free entries + live entries). *)
 From Coq Require Import Arith List Bool.
-From OFV Require Import ListAux Sparse SparseProofs.
+From OFV Require Import ListAux Sparse SparseProofs SparseOpt SparseOptProofs SparseChk.
 Import ListNotations.
 
 Theorem sparse_allocate_empty : forall r c, WF (s_allocate r c) /\ forall i j, has (s_allocate r c) i j = false.
@@ -38,6 +38,48 @@ Theorem sparse_copy_is_the_same_set : forall m r, WF m -> WF r -> nr m <= nr r -
   WF (s_copy m r) /\ forall i j, has (s_copy m r) i j = (i <? nr m) && has m i j.
 Proof. exact copy_spec. Qed.
 
+(* copy-rows / copy-columns, with their error exit: the destination is cleared, then row i := row rows[i] of the source for the rows
+   before the first out-of-range index (all of them when there is none) *)
+Theorem sparse_copyrows_selects_rows : forall m r rows, WF m -> WF r -> nc m <= nc r ->
+  WF (s_copyrows_chk m r rows) /\ nr (s_copyrows_chk m r rows) = nr r /\ nc (s_copyrows_chk m r rows) = nc r /\
+  forall i j, has (s_copyrows_chk m r rows) i j = (i <? first_bad_row m rows (nr r)) && has m (nth i rows 0) j.
+Proof. exact copyrows_chk_spec. Qed.
+
+Theorem sparse_copycols_selects_columns : forall m r cols, WF m -> WF r -> nr m <= nr r ->
+  WF (s_copycols_chk m r cols) /\ nr (s_copycols_chk m r cols) = nr r /\ nc (s_copycols_chk m r cols) = nc r /\
+  forall i j, has (s_copycols_chk m r cols) i j = (j <? first_bad_col m cols (nc r)) && (i <? nr m) && has m i (nth j cols 0).
+Proof. exact copycols_chk_spec. Qed.
+
+(* the "optimised" copies do not clear the destination: the result is the union; their hinted column walk inserts exactly as
+   of_mod2sparse_insert does whenever the hint is an entry of the column at or above the new row (insert_opt_is_insert) *)
+Theorem sparse_insert_opt_is_insert : forall m i j hint, WF m -> i < nr m -> j < nc m -> hint_ok m i j hint -> s_insert_opt m i j hint = s_insert m i j.
+Proof. exact insert_opt_spec. Qed.
+
+Theorem sparse_copyrows_opt_adds_rows : forall m r rows, WF m -> WF r -> nc m <= nc r ->
+  WF (s_copyrows_opt m r rows) /\ nr (s_copyrows_opt m r rows) = nr r /\ nc (s_copyrows_opt m r rows) = nc r /\
+  forall i j, has (s_copyrows_opt m r rows) i j = has r i j || ((i <? first_bad_row m rows (nr r)) && has m (nth i rows 0) j).
+Proof. exact copyrows_opt_spec. Qed.
+
+Theorem sparse_copycols_opt_adds_columns : forall m r cols, WF m -> WF r -> nr m <= nr r ->
+  WF (s_copycols_opt m r cols) /\ nr (s_copycols_opt m r cols) = nr r /\ nc (s_copycols_opt m r cols) = nc r /\
+  forall i j, has (s_copycols_opt m r cols) i j = has r i j || ((j <? first_bad_col m cols (nc r)) && (i <? nr m) && has m i (nth j cols 0)).
+Proof. exact copycols_opt_spec. Qed.
+
+(* copy_filled_matrix: the entries renumbered through the two index tables, added to what the destination holds *)
+Theorem sparse_copy_filled_renumbers : forall m r irows icols, WF m -> WF r ->
+  (forall e, In e (entries m) -> nth (fst e) irows 0 < nr r /\ nth (snd e) icols 0 < nc r) ->
+  WF (s_copy_filled m r irows icols) /\ nr (s_copy_filled m r irows icols) = nr r /\ nc (s_copy_filled m r irows icols) = nc r /\
+  forall i j, has (s_copy_filled m r irows icols) i j =
+              has r i j || existsb (fun e => (i =? nth (fst e) irows 0) && (j =? nth (snd e) icols 0)) (entries m).
+Proof. exact copy_filled_spec. Qed.
+
+(* sparse -> dense -> sparse gives the same set back, whatever the destination held *)
+Theorem sparse_dense_round_trip : forall m r, WF m -> WF r -> nr r = nr m -> nc r = nc m ->
+  WF (s_from_dense (s_to_dense m (nr m) (nc m)) r) /\ nr (s_from_dense (s_to_dense m (nr m) (nc m)) r) = nr r /\
+  nc (s_from_dense (s_to_dense m (nr m) (nc m)) r) = nc r /\
+  forall i j, i < nr m -> j < nc m -> has (s_from_dense (s_to_dense m (nr m) (nc m)) r) i j = has m i j.
+Proof. exact dense_roundtrip. Qed.
+
 Theorem sparse_traversals_sorted : forall m, WF m ->
   (forall i, i < nr m -> ssorted (nth i (rws m) []) /\ forall j, In j (nth i (rws m) []) <-> has m i j = true) /\
   (forall j, j < nc m -> ssorted (nth j (cls m) []) /\ forall i, i < nr m -> (In i (nth j (cls m) []) <-> has m i j = true)).
@@ -49,3 +91,8 @@ Proof. exact pool_accounting. Qed.
 Print Assumptions sparse_insert_adds_exactly_one.
 Print Assumptions sparse_find_is_membership.
 Print Assumptions sparse_copy_is_the_same_set.
+Print Assumptions sparse_copyrows_selects_rows.
+Print Assumptions sparse_copyrows_opt_adds_rows.
+Print Assumptions sparse_copycols_opt_adds_columns.
+Print Assumptions sparse_copy_filled_renumbers.
+Print Assumptions sparse_dense_round_trip.
